@@ -296,9 +296,6 @@ func (wk *Worker) runJob(job *Job) *JobResult {
 				m = ex.Model()
 			}()
 			cls := panicClass(out.msg)
-			if out.kind == "budget" {
-				cls = cls[:strings.IndexByte(cls, '@')+1] + in.entryWhere()
-			}
 			where := ""
 			if i := strings.IndexByte(cls, '@'); i >= 0 {
 				where = cls[i+1:]
